@@ -38,6 +38,36 @@ def generic_module(depth: int) -> str:
     return '\n'.join(lines)
 
 
+def forward_module() -> str:
+    """User generic + forward references (quoted) to a class defined later, in every position x container."""
+    lines = ['from typing import Generic, TypeVar', '', "T = TypeVar('T')", '',
+             'class Early:', '\tv: int', '', '\tdef __init__(self, v: int) -> None:', '\t\tself.v = v', '',
+             'class Ref(Generic[T]):', '\ttarget: T', '', '\tdef __init__(self, target: T) -> None:', '\t\tself.target = target', '', '\tdef get(self) -> T:', '\t\treturn self.target', '',
+             'def use_early(r: Ref[Early]) -> Early:', '\treturn r.get()', '']
+    containers = {'ref': 'Ref[{}]', 'list': 'list[{}]', 'dict': 'dict[str, {}]'}
+    for cname, c in containers.items():
+        for who in ('Late', 'Early'):
+            t = c.format(who)
+            lines += [f'class Holder_{cname}_{who}:', f"\tfield: '{t}'", '', f"\tdef __init__(self, field: '{t}') -> None:", '\t\tself.field = field', '',
+                      f"\tdef ret(self) -> '{t}':", '\t\treturn self.field', '', f"\tdef param(self, p: '{t}') -> int:", '\t\treturn 1', '']
+    lines += ['class Late:', '\tearly: Early', '', '\tdef __init__(self, early: Early) -> None:', '\t\tself.early = early', '']
+    return '\n'.join(lines)
+
+
+FORWARD_USER = '''from fwd_mod import Early, Late, Ref, Holder_ref_Late, Holder_list_Late
+
+def find(ref: Ref[Late]) -> Early:
+	late = ref.get()
+	return late.early
+
+def first(h: Holder_list_Late) -> Late:
+	return h.ret()[0]
+
+def via(h: Holder_ref_Late) -> Early:
+	return h.ret().get().early
+'''
+
+
 def value_of(depth: int) -> str:
     v = '1'
     for i in range(depth):
@@ -48,7 +78,7 @@ def value_of(depth: int) -> str:
 def module_sets(quick: bool):
     depth = 3 if quick else 5
     sets = [('gen-funcs', c08.PROGRAMS['funcs']), ('gen-classes', c08.PROGRAMS['classes']), ('gen-modules', c08.PROGRAMS['modules']),
-            ('gen-generics', {'gen_mod': generic_module(depth)})]
+            ('gen-generics', {'gen_mod': generic_module(depth)}), ('gen-forward', {'fwd_mod': forward_module(), 'fwd_user': FORWARD_USER})]
     feat = list(pyprog.feature_programs(True))[:1 if quick else 3]
     for i, p in enumerate(feat):
         sets.append((f'gen-feat{i}', {f'feat_mod{i}': p.source}))
